@@ -233,10 +233,10 @@ prop("C08", harness="h_exact",
                 extra_phases=[dict(shards=16, cases=12, env={"VERIF_MAXN": "150", "VERIF_MAXM": "420"}, seed_offset=500),
                               dict(shards=16, cases=60, env={"VERIF_PROFILE": "gnp-wide", "VERIF_MAXN": "26", "VERIF_MAXM": "140"}, seed_offset=550),
                               dict(shards=16, cases=6, env={"VERIF_PROFILE": "dense", "VERIF_MAXN": "23"}, seed_offset=600)]),
-     thorough=dict(shards=16, cases=4000, env={"VERIF_MAXN": "36"},
-                   extra_phases=[dict(shards=16, cases=150, env={"VERIF_MAXN": "400", "VERIF_MAXM": "1400"}, seed_offset=500),
-                                 dict(shards=16, cases=1000, env={"VERIF_PROFILE": "gnp-wide", "VERIF_MAXN": "40", "VERIF_MAXM": "200"}, seed_offset=550),
-                                 dict(shards=16, cases=100, env={"VERIF_PROFILE": "dense", "VERIF_MAXN": "26"}, seed_offset=600)]),
+     thorough=dict(shards=16, cases=2500, env={"VERIF_MAXN": "36"},
+                   extra_phases=[dict(shards=16, cases=40, env={"VERIF_MAXN": "400", "VERIF_MAXM": "1400"}, seed_offset=500),
+                                 dict(shards=16, cases=400, env={"VERIF_PROFILE": "gnp-wide", "VERIF_MAXN": "40", "VERIF_MAXM": "200"}, seed_offset=550),
+                                 dict(shards=16, cases=40, env={"VERIF_PROFILE": "dense", "VERIF_MAXN": "26"}, seed_offset=600)]),
      rule="Metamorphic, oracle-free for large graphs: a generated graph G and a generated transform T (vertex+edge-order permutation, isolated "
           "vertices, pendant trees, a bridge between two components, disjoint union with a second generated graph H, subdivision of edges with "
           "w=w1+w2 exactly, scaling by 2^j). Oracle: all six exact variants/backends (signed, fvs, iso and their _tbb forms on real libtbb with "
